@@ -629,7 +629,30 @@ def r_layout_source(F, V):
                     R.violation(key, body, "a TableLayout other than the caller's own parameter or the associated const TABLE_LAYOUT is passed to %s: size/alignment used for freeing may differ from the allocation" % cp, line=line_of(body, bb=i))
                     R.inst(key, "foreign TableLayout", "violation", True, where(body, bb=i))
     R.floor("TableLayout-typed arguments", nt, {"posctl": 0}.get(F.cfg, 10))
-    # (iv) allocation_size_or_zero reports the size of the same layout
+    # (iv) allocation_size_or_zero reports the size of the very layout the block was allocated with
+    ab = F.bodies.get("raw::RawTableInner::allocation_size_or_zero")
+    if ab is not None:
+        from cond import sources as _src
+        vals = []
+        for i, k, s in ab.stmts():
+            if s["k"] == "assign" and s["p"]["l"] == 0 and not s["p"].get("proj"):
+                vals += rv_operands(s["rv"])
+        for i, t in ab.calls():
+            if t["dest"]["l"] == 0:
+                vals.append({"k": "copy", "p": {"l": 0}})
+        ok = False
+        for i, t in ab.calls():
+            if (callee_path(t) or "").endswith("Layout::size") and t["args"]:
+                S = _src(ab, t["args"][0])
+                if any(c.endswith("::allocation_info") or c.endswith("calculate_layout_for") for c in S.calls):
+                    ok = True
+        arith = [s for i, k, s in ab.stmts() if s["k"] == "assign" and s["rv"]["k"] == "binop" and s["rv"]["op"].replace("WithOverflow", "") in ("Add", "Mul")]
+        key = "raw::RawTableInner::allocation_size_or_zero|layout-size"
+        if ok and not arith:
+            R.inst(key, "allocation_size = allocation_info(table_layout).1.size()", "ok", True, where(ab))
+        else:
+            R.violation(key, ab, "allocation_size is not the size() of the Layout the block was allocated with (it is recomputed by hand): padding between the data part and the control bytes is not counted")
+            R.inst(key, "allocation size recomputed", "violation", True, where(ab))
     return R
 
 
